@@ -558,9 +558,17 @@ func (s *Stage) Recover() {
 	if len(validate) == 0 && len(finalize) == 0 {
 		return
 	}
+	// Every parked file is entered as validated before the first one is handed
+	// to the finalize chain: a predecessor that was logged but not yet moved
+	// when we went down is `logged` for the cache until then, and its successor
+	// would take that for delivered if the walk happened to meet it first
+	parked := make([]*finalFile, 0, len(finalize))
 	for _, file := range finalize {
 		finalFile := s.partialToFinal(file)
 		s.toCache(finalFile, stateValidated)
+		parked = append(parked, finalFile)
+	}
+	for _, finalFile := range parked {
 		go s.finalizeQueue(finalFile)
 	}
 	if len(validate) > 0 {
